@@ -261,4 +261,22 @@ CHECKS = {
         assumptions=["the domain is message contents and handshake bytes; corrupting the shared ring's control words or the notification-byte count is outside the statement's quantifier",
                      "a clean rejection (dropping the offending connection) is a correct outcome"],
     ),
+    "C03": dict(
+        title="IPC: death of the peer at any point is detected and fully cleaned up",
+        level="fault_enumeration",
+        design_ref="DESIGN.md section 4, C03",
+        technique="crash-point enumeration + property testing: the dying peer is a forked process running the real client/server and stopping at the boundary of its K-th libc call (link-time interposition), every K enumerated for fixed scripts and drawn at random for generated ones; oracle = callback automaton, residue (descriptors, loop registrations, /dev/shm), control-client liveness, deadlines of client calls",
+        level_text="part A: a forked real client (connect, answered requests, requests left queued, events, disconnect or plain exit) stops just before its K-th libc call, optionally after a prefix of a send; the "
+                   "server (in-process, stepped by the case) must run destroyed exactly once for it (closed first iff created), keep serving the control client, and be back at the baseline of descriptors, loop "
+                   "registrations and /dev/shm entries; every K of 4 fixed scripts x 2 transports is enumerated, generated scripts draw K. part B: a forked real server stops before its K-th libc call (or is SIGKILLed between "
+                   "two client calls); the client's timed calls must return by their deadline (+1.5 s slack), infinite waits must end with a disconnect error within 2 x QB_IPC_MAX_WAIT_MS + 1.5 s of the death, later calls must "
+                   "fail, and after qb_ipcc_disconnect no file is left below /dev/shm; every K of 3 fixed client scripts x 2 transports is enumerated",
+        level_note="crash points are libc-call boundaries of the dying process (27 interposed functions) plus SIGKILL between client calls; two real processes, so the interleaving of survivor and victim is the kernel's "
+                   "(failures are confirmed by repetition); wall-clock bounds carry a 1.5 s slack; the empty per-connection directory that the shm client leaves after a server death is not counted (the statement speaks of files)",
+        stages=[rnd("death", "c03", 6000, 150000, essential=["A_died_during_handshake", "A_died_connected_idle", "A_died_with_requests_queued", "A_died_mid_request", "A_died_in_disconnect", "A_completed", "A_partial_send",
+                                                               "B_died_before_ready", "B_died_during_handshake", "B_died_while_client_waited_forever", "B_died_while_client_waited_finite", "B_killed_between_calls",
+                                                               "B_survived", "B_later_call_checked", "B_shm_cleanup_checked", "shm", "socket"])],
+        assumptions=["the dead server has been reaped before the client's disconnect (the client's kill(pid, 0) probe sees a zombie as alive)",
+                     "a dying process stops between libc calls, or after a prefix of a send; it does not corrupt shared memory on its way out"],
+    ),
 }
